@@ -91,7 +91,7 @@ SING = 'c20.user.x = @k/gin.singleton()\nk/gin.singleton.constructor = @c20.Obj\
 
 
 def bound(tier):
-  return 'depth<=%d over %d operations; both clear variants at every transition' % (4 if tier == 'quick' else 5,
+  return 'depth<=%d over %d operations; both clear variants at every transition' % (4,
                                                                                     len(OPS))
 
 
@@ -546,7 +546,7 @@ def run(ctx):
   res.extra['alphabet'] = OPS
   pristine()
   mod = __import__('checks.c20', fromlist=['x'])
-  bfs.run_bfs(ctx, mod, 4 if ctx.quick else 5, res, max_states=100000 if ctx.quick else 1000000)
+  bfs.run_bfs(ctx, mod, 4, res, max_states=100000 if ctx.quick else 1000000)
   # fresh-subprocess validation of the reset (always the empty history; thorough: a stratified subset)
   tasks = [([], 'none')]
   if not ctx.quick:
